@@ -188,6 +188,9 @@ static const char *execOp(const Toks &a)
         if (!s) return BAD;
         if (n != 16 && n != 32) return UNDEF;
         if (!readable(d, (size_t)n)) return UNDEF;
+        /* an object of the right class is re-keyed in place, as a caller of the C library re-keys a schedule: the stored
+           tweak must then be the zero tweak again (a fresh object every time would hide state that survives setKey) */
+        if (s->c && s->c->keySize() == (size_t)n) return ret(s->c->setKey(d.ptr(), (size_t)n));
         delete s->c;
         s->c = 0;
         if (n == 16) {
@@ -207,6 +210,7 @@ static const char *execOp(const Toks &a)
         if (!s) return BAD;
         if (n != 8 && n != 16) return UNDEF;
         if (!readable(d, (size_t)n)) return UNDEF;
+        if (s->c && s->c->keySize() == (size_t)n) return ret(s->c->setKey(d.ptr(), (size_t)n));
         delete s->c;
         s->c = 0;
         if (n == 8) {
